@@ -90,11 +90,12 @@ Section Framing.
         match read_bytes nb r1 with
         | None => Err short
         | Some (hl, r2) =>
-          let n := Z.to_nat (le_decode hl) in
-          match read_bytes n r2 with
+          let nz := le_decode hl in
+          (* the length is compared as an integer first: a corrupt 4-byte length never becomes a unary number *)
+          match (if Z.of_nat (List.length r2) <? nz then None else read_bytes (Z.to_nat nz) r2) with
           | None => Err short
           | Some (hb, r3) =>
-            if max_header_size <? Z.of_nat n then Err EValue else
+            if max_header_size <? nz then Err EValue else
             match parse_hdr hb with
             | None => Err EValue
             | Some m =>
